@@ -66,6 +66,7 @@ ClauseProp ==
     rej_stable     |-> {"C13"},
     legacy_ok      |-> {"C17"},
     legacy_ret     |-> {"C17"},
+    legacy_same    |-> {"C17"},
     alloc_ok       |-> {"C18"},
     alloc_size     |-> {"C18"},
     alloc_enc      |-> {"C18"},
@@ -244,6 +245,19 @@ JLegacy(line) ==
              ELSE If(line.call \notin {"SetMaxInlineDepth", "SetMaxInlineILSize"} \/ obs.ret = line.arg, "legacy_ret") \cup
                   If(obs.zero, "legacy_ret") ]
 
+\* Observations of the same calls made in different environments (processes started with different settings of the
+\* legacy controls): the outcome signatures must be the same in all of them.
+JEnvCmp(line) ==
+  LET es == line.obs.envs IN
+  [ cls |-> "EnvCmp/" \o line.kind,
+    fail |-> If(\A i, j \in 1..Len(es) : es[i].sig = es[j].sig, "legacy_same") ]
+
+\* the outputs of the same call made before and after a legacy control (on two types with one schema, so that
+\* both are first uses): byte for byte the same
+JCmpOut(line) ==
+  [ cls |-> "CmpOut>" \o (IF line.obs.oa = line.obs.ob THEN "same" ELSE "different"),
+    fail |-> If(line.obs.oa = line.obs.ob, "legacy_same") ]
+
 \* ---- allocation-free encoding after first use (C18) --------------------------------
 JAllocs(line) ==
   LET obs == line.obs IN
@@ -297,7 +311,9 @@ RECURSIVE HookFold(_, _, _)
 HookFold(evs, i, acc) ==
   IF i > Len(evs) THEN acc
   ELSE LET e == evs[i] IN
-  IF e.k = "block" THEN
+  IF e.k = "base" THEN     \* a block taken while nothing was recorded: the state of the span is unknown
+       HookFold(evs, i + 1, [acc EXCEPT !.sp = [x \in DOMAIN acc.sp \ {ToString(e.span)} |-> acc.sp[x]]])
+  ELSE IF e.k = "block" THEN
        HookFold(evs, i + 1, [acc EXCEPT !.sp = (ToString(e.span) :> [p |-> 0, n |-> e.size, bm |-> e.bm]) @@ @,
                                         !.fail = @ \cup If(e.size >= BlockSize, "span_conform")])
   ELSE IF e.k = "malloc" THEN
@@ -324,7 +340,8 @@ HookFold(evs, i, acc) ==
        HookFold(evs, i + 1, [acc EXCEPT !.fail = @ \cup If(acc.holder = e.g, "reg_mutex")])
 
 JHooks(line, sp) ==
-  LET r == HookFold(line.obs.events, 1, [sp |-> sp, holder |-> 0, fail |-> {}]) IN
+  LET sp0 == IF "cont" \in DOMAIN line /\ ~line.cont THEN <<>> ELSE sp     \* allocations went unrecorded in between: adopt what is seen
+      r == HookFold(line.obs.events, 1, [sp |-> sp0, holder |-> 0, fail |-> {}]) IN
   [fail |-> r.fail, cls |-> "Hooks>" \o line.obs.out, sp |-> r.sp]
 
 \* Registry events of a step (recorded whenever the library is built with the hooks): every lock section
